@@ -159,11 +159,8 @@ def expected_final(spec, tr=None):
         elif e["fin"] <= t["commit_pos"]:
             must.append(e)
         else:
-            commit_cycle = next(((b, rp) for (b, rp) in cyc if b > t["commit_pos"]), None)
-            if commit_cycle is not None and e["fin"] < commit_cycle[0]:
-                maybe.append((e, commit_cycle[1]))
-            else:
-                never.append(e)
+            # finished after its root: never on its own — at most in the one report that delivers the trace
+            maybe.append((e, None))
     return must, never, maybe
 
 
@@ -238,11 +235,21 @@ def o_exactly_once(spec, tr):
             if due is not None and not (due_after < pos <= due):
                 out.append("span %r (trace %x) was due by the report of the cycle at line %d (finished at line %d) but was delivered at line %d" % (k[0], k[1], due, due_after, pos))
     wantkeys = set((k[0], k[1]) for k in want)
-    for e, rp in maybe:
+    # cancelable: the report position(s) at which each trace's due records arrived
+    trace_pos = {}
+    if spec.cancelable:
+        for k, es in want.items():
+            for e in es:
+                trace_pos.setdefault(e["root"], set()).update(got.get(k, []))
+        for root, ps in trace_pos.items():
+            if len(ps) > 1:
+                out.append("trace %x was delivered in %d report calls (lines %s), not in a single one" % (spec.traces[root]["trace"], len(ps), sorted(ps)))
+    for e, _ in maybe:
         wantkeys.add((e["name"], e["trace"]))
+        allowed = trace_pos.get(e["root"], set())
         for kk, v in got.items():
-            if kk[0] == e["name"] and kk[1] == e["trace"] and any(p != rp for p in v):
-                out.append("span %r of trace %x finished after its root; it may only be delivered together with the trace (line %d), was delivered at %s" % (e["name"], e["trace"], rp, v))
+            if kk[0] == e["name"] and kk[1] == e["trace"] and any(p not in allowed for p in v):
+                out.append("span %r of trace %x finished after its root; it may only be delivered together with the trace (line %s), was delivered at %s" % (e["name"], e["trace"], sorted(allowed), v))
     for e in never:
         n = sum(len(v) for kk, v in got.items() if kk[0] == e["name"] and kk[1] == e["trace"])
         if n and (e["name"], e["trace"]) not in wantkeys:
